@@ -20,7 +20,7 @@ META = {
 
 def check(ctx):
     conv.result_honest(ctx, "emu_base.math.krylov_exp.krylov_exp_impl",
-                       "emu_base.math.krylov_exp.KrylovExpResult", {"exp_tolerance", "norm_tolerance"})
+                       "emu_base.math.krylov_exp.KrylovExpResult", {"exp_tolerance", "norm_tolerance"}, vec_param="v")
     conv.entry_raises(ctx, "emu_base.math.krylov_exp.krylov_exp", {"converged"}, "krylov_exp")
     conv.who_may_call(ctx, {"emu_base.math.krylov_exp.krylov_exp_impl": {"emu_base.math.krylov_exp.krylov_exp"}})
     conv.clients_use_raising_entry(ctx, "emu_base.math.krylov_exp.krylov_exp", 5)
